@@ -555,6 +555,12 @@ func runCheck(repo, verif, prop, tier string, keep bool) int {
 		for _, er := range engineErrs {
 			fmt.Fprintln(os.Stderr, "ENGINE-ERROR:", er)
 		}
+		if len(violLines) > 0 {
+			// a failed obligation is assumed after it was reported, which can
+			// make the rest of its unit unreachable (vacuity notes above): the
+			// violation is the result of the run
+			return 1
+		}
 		return 2
 	}
 	if nObl == 0 {
